@@ -36,6 +36,7 @@ type Options struct {
 	Dyn              convtypes.DynamicConfig
 	SortEndpointsBy  string
 	ConfigMapName    string // "ns/name" of the global ConfigMap ("" = none)
+	TCPConfigMapName string // "ns/name" of the --tcp-services-configmap ConfigMap ("" = option not set)
 	KeepLog          bool
 	Leader           bool
 	// MirrorCache reads the cluster through the harness's own mirror of the cache facade (world/cache.go)
@@ -137,7 +138,7 @@ func NewPipeline(w *World, opt Options) (*Pipeline, error) {
 		FakeCAFile:       fake,
 		DisableKeywords:  opt.DisableKeywords,
 	}
-	ccfg := &ctrlconfig.Config{ConfigMapName: opt.ConfigMapName, ControllerName: opt.Class.ControllerName, IngressClass: opt.Class.IngressClass,
+	ccfg := &ctrlconfig.Config{ConfigMapName: opt.ConfigMapName, TCPConfigMapName: opt.TCPConfigMapName, ControllerName: opt.Class.ControllerName, IngressClass: opt.Class.IngressClass,
 		WatchIngressWithoutClass: opt.Class.WatchIngressWithoutClass, IngressClassPrecedence: opt.Class.IngressClassPrecedence}
 	p.Watchers = reconciler.VerifCreateWatchers(context.Background(), ccfg, validator)
 	p.queue = &reconciler.VerifQueue{}
@@ -262,6 +263,9 @@ func (p *Pipeline) Startup() {
 	if w.GlobalConfig != nil && p.Opt.ConfigMapName != "" {
 		p.Event("create", nil, p.ConfigMapObject())
 	}
+	if w.TCPConfig != nil && p.Opt.TCPConfigMapName != "" {
+		p.Event("create", nil, p.TCPConfigMapObject())
+	}
 	for _, k := range SortedKeys(w.IngressClasses) {
 		p.Event("create", nil, w.IngressClasses[k].DeepCopy())
 	}
@@ -288,6 +292,19 @@ func (p *Pipeline) ConfigMapObject() *api.ConfigMap {
 	if p.W.GlobalConfig != nil {
 		cm.Data = map[string]string{}
 		for k, v := range p.W.GlobalConfig {
+			cm.Data[k] = v
+		}
+	}
+	return cm
+}
+
+// TCPConfigMapObject: the tcp-services ConfigMap as this controller's informer delivers it
+func (p *Pipeline) TCPConfigMapObject() *api.ConfigMap {
+	cm := &api.ConfigMap{}
+	cm.Namespace, cm.Name = splitKey(p.Opt.TCPConfigMapName)
+	if p.W.TCPConfig != nil {
+		cm.Data = map[string]string{}
+		for k, v := range p.W.TCPConfig {
 			cm.Data[k] = v
 		}
 	}
